@@ -11,7 +11,7 @@ CHECKS = {
         'implementation\'s own observations to find a concrete failing history when the tie or a proof breaks.',
    note='Trusted: Coq kernel + vm_compute; hand-written model Model/DynArray.v (numpy semantics of indexing/slicing/assignment/delete/concatenate '
         'written out); harness/c18.py. Axiom-free (Print Assumptions: closed). Aliasing of returned views and slice steps are not modelled.',
-   tech='Rocq proof: refinement to list spec by induction + model/implementation correspondence', ref='DESIGN.md section 6 (C18)'),
+   tech='Rocq proof: refinement to list spec by induction + model/implementation correspondence', ref='DESIGN.md sections 0.2 and 6 (C18)'),
 }
 CHECKS['C01'] = dict(
    text='Machine-checked theorems over the reads of the input candle arrays that the two simulators make in each step, REGENERATED with their guards from '
@@ -22,7 +22,7 @@ CHECKS['C01'] = dict(
         'compared inside Coq with the reads recorded on the real arrays, and a two-run differential on the real engine searches for a concrete look-ahead.',
    note='Trusted: Coq kernel + vm_compute; translator/simidx.py (output validated against recorded reads each run); harness/c01.py, engine.py. Assumes the engine '
         'reaches the input only through the extracted reads (enforced syntactically, fail-closed). Axiom-free.',
-   tech='Rocq proof over source-regenerated access lists + arbitrary-engine fold; recorded-read correspondence; two-run differential search', ref='DESIGN.md section 6 (C01)')
+   tech='Rocq proof over source-regenerated access lists + arbitrary-engine fold; recorded-read correspondence; two-run differential search', ref='DESIGN.md sections 0.2 and 6 (C01)')
 CHECKS['C02'] = dict(
    text='Machine-checked theorems (exact rationals; candle_includes_price / split_candle REGENERATED from /repo each run) about the per-minute match loop with the '
         'strategy layer as an ARBITRARY function of the fill: an order resting at the start of a minute whose price is inside the (gap-extended) range and which '
@@ -33,7 +33,7 @@ CHECKS['C02'] = dict(
         'is evaluated on the submit/cancel/execute/matcher event streams of real sessions in both simulators.',
    note='Trusted: Coq kernel + vm_compute; translator; hand-written Model/Match.v and Model/Lifecycle.v tied by correspondence; harness/c02.py, engine.py, driver.py. '
         'The fast simulator\'s chunk loop is covered by the monitor, not by a theorem. Axiom-free.',
-   tech='Rocq proof over source-regenerated kernels + match-loop model with arbitrary reactions; loop correspondence; Coq monitor on real event streams', ref='DESIGN.md section 6 (C02)')
+   tech='Rocq proof over source-regenerated kernels + match-loop model with arbitrary reactions; loop correspondence; Coq monitor on real event streams', ref='DESIGN.md sections 0.2 and 6 (C02)')
 CHECKS['C06'] = dict(
    text='Machine-checked theorems (exact rationals) over a model of what a symbol\'s fills do (trade record, fee, position_fill, previous_qty, hook classification, '
         'ClosedTrade fields): for every REGULAR fill sequence (no reduce-only order larger than the position, no flip) the hooks form open/(increase|reduce)*/close '
@@ -44,17 +44,17 @@ CHECKS['C06'] = dict(
         '(regular and irregular), and Coq monitors in the theorems\' vocabulary are evaluated on the traces of real sessions.',
    note='Trusted: Coq kernel + vm_compute; hand-written Model/Trades.v (+ Model/Futures.position_fill) tied by correspondence; harness/c06.py, driver.py, engine.py. '
         'Spot sessions (fee taken in the base asset) are outside the model. Axiom-free.',
-   tech='Rocq proof by invariant over fill sequences + refutation witnesses; object-level correspondence; Coq monitors on real session traces', ref='DESIGN.md section 6 (C06)')
+   tech='Rocq proof by invariant over fill sequences + refutation witnesses; object-level correspondence; Coq monitors on real session traces', ref='DESIGN.md sections 0.2 and 6 (C06)')
 CHECKS['C07'] = dict(
    text='Machine-checked theorem (exact rationals, every timeframe length n>0 and every store content): whenever the stored higher-timeframe candles are the '
         'aggregations of the complete windows, optionally followed by one stale partial candle of the running window (the invariant the simulators maintain), '
         'get_candles returns exactly one candle per started window and each equals the aggregation (first open, last close, max high, min low, summed volume) of '
-        'the 1m candles of that window; plus the aggregation function spec and agreement of the timeframe tables regenerated from /repo. The store/feed model '
+        'the 1m candles of that window; the normal simulator\'s minute-by-minute feed (incl. the partial candles published at fills, with its timestamp arithmetic) is proved to keep that invariant by induction, so the views are aggregations at every minute; plus the aggregation function spec and agreement of the timeframe tables regenerated from /repo. The store/feed model '
         '(add_candle, partial-candle publication at fills, window completion) is run inside Coq against the raw stores of real sessions, and the Coq '
         'aggregation spec is evaluated on what strategies actually read at hook invocations (incl. hooks fired by mid-window fills) in both simulators.',
    note='Trusted: Coq kernel + vm_compute; hand-written Model/CandleView.v, Model/CandleStore.v tied by correspondence; harness/c07.py + engine.py. '
-        'Preservation of the invariant by the simulators is covered by correspondence and the monitor, not by a theorem. Axiom-free.',
-   tech='Rocq proof over hand model + store correspondence inside Coq + aggregation monitor on real hook observations', ref='DESIGN.md section 6 (C07)')
+        'The normal simulator is proved to keep the invariant (for every aligned series and any fills); the fast simulator and warm-up injection are covered by the monitor. Axiom-free.',
+   tech='Rocq proof over hand model + store correspondence inside Coq + aggregation monitor on real hook observations', ref='DESIGN.md sections 0.2 and 6 (C07)')
 CHECKS['C08'] = dict(
    text='Machine-checked theorems (Coq 8.16, exact rationals) about the split_candle / candle_includes_price / gap-normalisation code REGENERATED from '
         '/repo on every run by a fail-closed Python-AST translator: totality and validity of the split on the whole range, the later half walks '
@@ -65,7 +65,7 @@ CHECKS['C08'] = dict(
    note='Trusted: Coq kernel + vm_compute; translator py2v (re-validated bit-for-bit against the Python functions on every run); hand-written Model/Match.v '
         '(match loop, stable sorts) tied by correspondence with _sort_execution_orders; harness/c08.py. Axiom-free. Theorems are over exact rationals '
         '(the code only compares/copies prices).',
-   tech='Rocq proof over source-regenerated kernels + match-loop model; translation validation; monitors on implementation outputs', ref='DESIGN.md section 6 (C08)')
+   tech='Rocq proof over source-regenerated kernels + match-loop model; translation validation; monitors on implementation outputs', ref='DESIGN.md sections 0.2 and 6 (C08)')
 CHECKS['C19'] = dict(
    text='Machine-checked theorems (exact rationals) over the convert_number kernel and the alphabet constant REGENERATED from /repo each run: every '
         'gene of the 80-letter alphabet decodes into [min,max], monotonically, first letter -> min, last -> max; int parameters with integer bounds '
@@ -75,7 +75,7 @@ CHECKS['C19'] = dict(
         'implementation values for the whole alphabet.',
    note='Trusted: Coq kernel + vm_compute (PrimFloat primitives for the float witness/correspondence), translator py2v (validated bit-for-bit), '
         'Model/Hp.v, harness/c19.py. Range/monotonicity theorems are exact-arithmetic statements; binary64 rounding is covered by the monitor only.',
-   tech='Rocq proof over source-regenerated kernel + correspondence + monitor on implementation outputs', ref='DESIGN.md section 6 (C19)')
+   tech='Rocq proof over source-regenerated kernel + correspondence + monitor on implementation outputs', ref='DESIGN.md sections 0.2 and 6 (C19)')
 CHECKS['C11'] = dict(
    text='Machine-checked theorems over a model of the process-global state as cells and of a session as a fixed prologue (get_config memo cleared, configuration '
         'entries and store re-created from the arguments) followed by an ARBITRARY program: the frame property (a run depends only on what it reads before writing), '
@@ -85,10 +85,10 @@ CHECKS['C11'] = dict(
         'fingerprinted) searches the rest of the process state, which the model does not name.',
    note='Trusted: Coq kernel; translator/purity.py; harness/c11.py + c11_worker.py. Process-global state outside the modelled cells (module singletons, functools/numba '
         'caches) is covered by the search only: partial. Axiom-free.',
-   tech='Rocq proof (frame/noninterference over cell programs) + syntactic shape check of the prologue + subprocess differential search', ref='DESIGN.md section 6 (C11)')
+   tech='Rocq proof (frame/noninterference over cell programs) + syntactic shape check of the prologue + subprocess differential search', ref='DESIGN.md sections 0.2 and 6 (C11)')
 CHECKS['C12'] = dict(
-   text='Machine-checked theorems: (i) the fast matcher\'s stretched minute candle has exactly the range of the normal matcher\'s gap-normalised candle (generated '
-        'fix_jump), so the same orders are inside each minute; (ii) from the read lists, execution tests and chunk length REGENERATED from backtest_mode.py: the chunk '
+   text='Machine-checked theorems: (i) the path candles the fast matcher walks are exactly the normal simulator\'s gap-normalised minute candles (generated '
+        'fix_jump reads only the previous close and keeps the close); (ii) from the read lists, execution tests and chunk length REGENERATED from backtest_mode.py: the chunk '
         'length divides every route timeframe, the fast simulator builds higher-timeframe candles and runs routes exactly when, and from the rows from which, the normal '
         'one does at the chunk\'s last minute, and the normal one does neither inside a chunk; (iii) for a chunk with at most one resting order inside its range and '
         'ANY strategy reaction that does not read the partial candle and places nothing inside the chunk, the fast chunk matcher and the normal simulator '
@@ -96,7 +96,7 @@ CHECKS['C12'] = dict(
         'is run in Coq against the real one with scripted reactions, and real sessions satisfying the hypothesis are run in both simulators and compared.',
    note='Trusted: Coq kernel + vm_compute; translators; hand-written Model/Match.v, Model/FastMatch.v tied by correspondence; harness/c12.py, engine.py, driver.py. '
         'Whole-session equality is searched, not proved. Axiom-free.',
-   tech='Rocq proof over regenerated kernels/read lists + two matcher models (chunk equivalence by induction); matcher correspondence; fast-vs-normal differential', ref='DESIGN.md section 6 (C12)')
+   tech='Rocq proof over regenerated kernels/read lists + two matcher models (chunk equivalence by induction); matcher correspondence; fast-vs-normal differential', ref='DESIGN.md sections 0.2 and 6 (C12)')
 CHECKS['C13'] = dict(
    text='Machine-checked theorems: every series produced by a state machine (Mealy machine: any state, any step) is causal, causality is closed under composition and '
         'pointwise combination, hence each of the 25 modelled core series (sma, ema, wma, trima, roc, mom, var, wilders, dema, tema, macd line/signal/hist, rsi, atr, obv, '
@@ -105,7 +105,7 @@ CHECKS['C13'] = dict(
         '~168 public indicators with a sequential mode are additionally put through a prefix monitor on the implementation.',
    note='Trusted: Coq kernel + vm_compute; hand-written Model/Indicators.v tied by value correspondence (relative 1e-8); harness/c13.py, ind.py. The theorem covers the '
         'modelled core only; for the other ~145 indicators the property is monitored, not proved: partial. Axiom-free.',
-   tech='Rocq proof (causality of state machines + closure lemmas) over hand models + value correspondence + prefix monitor over all indicators', ref='DESIGN.md section 6 (C13)')
+   tech='Rocq proof (causality of state machines + closure lemmas) over hand models + value correspondence + prefix monitor over all indicators', ref='DESIGN.md sections 0.2 and 6 (C13)')
 CHECKS['C14'] = dict(
    text='Machine-checked theorems: for the shape of the public indicator functions - slice the candles to the warm-up window unless sequential, compute ANY series F, '
         'return it or its last entry - the single value is the last entry of the sequential result on inputs within the window, and on longer inputs it is the last entry '
@@ -114,7 +114,7 @@ CHECKS['C14'] = dict(
         'and a monitor checks all public indicators (every field: one entry per candle, last = single, long input = trailing window) at lengths below/at/above 240.',
    note='Trusted: Coq kernel + vm_compute; hand-written Model/Indicators.v; harness/c14.py (AST shape classifier), ind.py. One-entry-per-candle is proved for the modelled '
         'core only; the rest is monitored: partial. Axiom-free.',
-   tech='Rocq proof (shape theorem for arbitrary F + state-machine lengths) + syntactic shape classification + value correspondence + monitor over all indicators', ref='DESIGN.md section 6 (C14)')
+   tech='Rocq proof (shape theorem for arbitrary F + state-machine lengths) + syntactic shape classification + value correspondence + monitor over all indicators', ref='DESIGN.md sections 0.2 and 6 (C14)')
 CHECKS['C15'] = dict(
    text='Machine-checked theorems over textbook definitions of the core indicators written as state machines in exact rationals: RSI in [0,100] for every series and period, '
         'Williams %R in [-100,0] and stochastic %K in [0,100] for every series of candles with low <= close <= high, Donchian lower <= middle <= upper and the channel '
@@ -123,7 +123,7 @@ CHECKS['C15'] = dict(
         'ordering, selector and scaling monitors run on the implementation for the whole list of the property.',
    note='Trusted: Coq kernel + vm_compute; hand-written Model/Indicators.v tied by value correspondence (relative 1e-8); harness/c15.py, ind.py. Indicators that need '
         'square roots (stddev, Bollinger, Keltner with non-EMA, CCI constant) and the ADX family are monitored, not modelled: partial. Axiom-free.',
-   tech='Rocq proof of ranges/orderings/homogeneity over definitional models + value correspondence in Coq + implementation monitors', ref='DESIGN.md section 6 (C15)')
+   tech='Rocq proof of ranges/orderings/homogeneity over definitional models + value correspondence in Coq + implementation monitors', ref='DESIGN.md sections 0.2 and 6 (C15)')
 CHECKS['C16'] = dict(
    text='Machine-checked theorems over the trade-list metrics written as plain definitions (exact rationals), for EVERY list of trades: total = winners + losers + '
         'break-even; net profit = sum of PnL = gross profit + gross loss; longs + shorts = total and the two percentages sum to 100; win rate lies in [0,1] and '
@@ -133,7 +133,7 @@ CHECKS['C16'] = dict(
         'independently at the moment they are taken.',
    note='Trusted: Coq kernel + vm_compute; hand-written Model/Metrics.v tied by value correspondence; harness/c16.py, driver.py, engine.py. Sharpe/Sortino/Calmar/Omega/annual '
         'return and the equity-sampling clauses are monitored, not proved: partial. Axiom-free.',
-   tech='Rocq proof of the metric identities over definitional models + value correspondence in Coq + ratio and equity-sample monitors', ref='DESIGN.md section 6 (C16)')
+   tech='Rocq proof of the metric identities over definitional models + value correspondence in Coq + ratio and equity-sample monitors', ref='DESIGN.md sections 0.2 and 6 (C16)')
 CHECKS['C17'] = dict(
    text='Machine-checked theorems (exact rationals) over size_to_qty, risk_to_qty, risk_to_size, limit_stop_loss, floor_with_precision and the timeframe '
         'tables REGENERATED from /repo each run: cost incl. fees <= capital, risk <= requested share, at most one precision step below the exact quotient, '
@@ -143,7 +143,7 @@ CHECKS['C17'] = dict(
         'the computed quantity; decimal helpers are tested against exact decimal arithmetic (tested, not proved).',
    note='Trusted: Coq kernel + vm_compute, translator py2v (validated bit-for-bit), Model/Rounding.v (numpy scalar path, corresponded), harness/c17.py + '
         'driver.py. sum_floats/subtract_floats decimal exactness is search-only. Fee rates above 1/3 excluded in the risk_to_qty theorem.',
-   tech='Rocq proof over source-regenerated kernels + translation validation + exact-arithmetic monitors on implementation outputs', ref='DESIGN.md section 6 (C17)')
+   tech='Rocq proof over source-regenerated kernels + translation validation + exact-arithmetic monitors on implementation outputs', ref='DESIGN.md sections 0.2 and 6 (C17)')
 CHECKS['C20'] = dict(
    text='Machine-checked theorems over hand-written models of _fill_absent_candles (one candle per minute on the grid, provided candles kept, gaps flat at '
         'the previous close / first open - for every batch and interval) and of CandlesState.add_candle / add_multiple_1m_candles (add_candle equals the '
@@ -152,7 +152,7 @@ CHECKS['C20'] = dict(
         'long intervals with duplicates/off-grid/shuffled batches, random add histories incl. bulk batches; plus the spacing rejection of research.backtest.',
    note='Trusted: Coq kernel + vm_compute; Model/Import.v and Model/CandleStore.v (hand-written; pydash.find = first match; live-mode branches not modelled); '
         'harness/c20.py. Axiom-free. Relies on C18 for the backing array.',
-   tech='Rocq proof (spec equality + invariant over all histories) + model/implementation correspondence', ref='DESIGN.md section 6 (C20)')
+   tech='Rocq proof (spec equality + invariant over all histories) + model/implementation correspondence', ref='DESIGN.md sections 0.2 and 6 (C20)')
 CHECKS['C04'] = dict(
    text='Machine-checked refinement (exact rationals): for every starting balance, fee in [0,1) and every well-formed history of submit/cancel/execute '
         '(any length; fresh ids, positive qty/price, sells executed while covered) the hand-written model of SpotExchange + Order + Position takes the '
@@ -163,7 +163,7 @@ CHECKS['C04'] = dict(
         'observations.',
    note='Trusted: Coq kernel + vm_compute; Model/Spot.v (hand-written); harness/c04.py + driver.py (inert strategy attached). Exact arithmetic: inputs are '
         'short decimals / dyadic values for which Decimal(str(x)) arithmetic is exact (checked per observation); binary64 rounding of long expansions is not covered.',
-   tech='Rocq proof: refinement to a reference account by invariant over all histories + exact model/implementation correspondence', ref='DESIGN.md section 6 (C04)')
+   tech='Rocq proof: refinement to a reference account by invariant over all histories + exact model/implementation correspondence', ref='DESIGN.md sections 0.2 and 6 (C04)')
 CHECKS['C03'] = dict(
    text='Machine-checked refinement (exact rationals): for every wallet, leverage, fee, number of symbols sharing the wallet and every legal history of '
         'submit/cancel/execute/price moves (any length) the hand-written model of FuturesExchange + Order + Position shows the reference average-cost margin '
@@ -174,7 +174,7 @@ CHECKS['C03'] = dict(
         'by Coq on the implementation\'s own observations.',
    note='Trusted: Coq kernel + vm_compute; Model/Futures.v (hand-written); harness/c03.py + driver.py (inert strategy attached, mark prices set by the harness). '
         'Theorems are exact-arithmetic; the implementation is compared up to a relative 1e-9 with decisions exact on histories whose decision margins exceed 1e-6.',
-   tech='Rocq proof: refinement to a reference margin account (permutation invariant over all histories) + model/implementation correspondence', ref='DESIGN.md section 6 (C03)')
+   tech='Rocq proof: refinement to a reference margin account (permutation invariant over all histories) + model/implementation correspondence', ref='DESIGN.md sections 0.2 and 6 (C03)')
 CHECKS['C10'] = dict(
    text='Machine-checked theorems: (a) routing, over the is_price_near kernel REGENERATED from /repo each run - an entry/exit order has exactly the asked '
         'quantity and price, is MARKET iff within 0.015 percent of the current price, otherwise entries are LIMIT at a better and STOP at a worse price, '
@@ -185,7 +185,7 @@ CHECKS['C10'] = dict(
         'same operations; monitors check every clause at every after() observation point of real backtests with scripted strategies.',
    note='Trusted: Coq kernel + vm_compute; translator py2v (is_price_near); Model/Routing.v (hand-written); harness/c10.py, driver.py, engine.py. The '
         'should_cancel_entry clause and market-routed exits are covered by the trace monitors only (search), not by a theorem.',
-   tech='Rocq proof (routing theorems over regenerated kernel; invariant over all op sequences) + correspondence + trace monitors', ref='DESIGN.md section 6 (C10)')
+   tech='Rocq proof (routing theorems over regenerated kernel; invariant over all op sequences) + correspondence + trace monitors', ref='DESIGN.md sections 0.2 and 6 (C10)')
 CHECKS['C09'] = dict(
    text='Machine-checked theorems over the liquidation_price / bankruptcy_price / candle_includes_price kernels REGENERATED from /repo each run: for every '
         'leverage 1..125 and positive entry the liquidation price lies strictly between bankruptcy and entry price on the losing side (exact arithmetic, plus a '
@@ -197,7 +197,7 @@ CHECKS['C09'] = dict(
         'contains its liquidation price.',
    note='Trusted: Coq kernel + vm_compute (PrimFloat for bit-exact decisions); translator py2v; Model/Liquidation.v + Model/Futures.v (hand-written); harness/c09.py, '
         'driver.py, engine.py. The cancellation of resting orders after a forced close is the C10 close clause (trace monitors).',
-   tech='Rocq proof over source-regenerated kernels + account model; correspondence; trace monitors re-decided by Coq', ref='DESIGN.md section 6 (C09)')
+   tech='Rocq proof over source-regenerated kernels + account model; correspondence; trace monitors re-decided by Coq', ref='DESIGN.md sections 0.2 and 6 (C09)')
 CHECKS['C05'] = dict(
    text='Machine-checked invariants of a hand-written model of Order.execute/cancel, OrdersState, Sandbox.cancel_all_orders, ClosedTrades and the engine '
         'composites (_execute_cancel, the _reset of _check), for EVERY history of submissions, single cancels, cancel-all, executions, flushes of pending '
@@ -208,7 +208,7 @@ CHECKS['C05'] = dict(
         'trace monitors re-check transitions, no-effect calls, reported-active and trade records on real backtests.',
    note='Trusted: Coq kernel + vm_compute; Model/Lifecycle.v (hand-written); harness/c05.py, driver.py, engine.py. Position effects are inputs of the model '
         '(observed in correspondence, universally quantified in theorems). Reaction orders submitted by hooks during a flush are outside the ExecutePending step.',
-   tech='Rocq proof: invariants over all histories and all effect assignments + whole-registry correspondence + trace monitors', ref='DESIGN.md section 6 (C05)')
+   tech='Rocq proof: invariants over all histories and all effect assignments + whole-registry correspondence + trace monitors', ref='DESIGN.md sections 0.2 and 6 (C05)')
 NA = {}
 def main():
     props = [json.loads(l)['id'] for l in open(f'{V}/properties.jsonl')]
